@@ -139,3 +139,15 @@ pub fn base_evidence(id: &str, tier: Tier, seed: u64, level: &str, coverage: Val
         "violations": violations,
     })
 }
+
+/// Caps the writable memory of this (child) process so that a tree under test that allocates
+/// without bound ends its own process quickly instead of exhausting the machine. RLIMIT_DATA
+/// counts brk and private writable mappings (what actually gets used), not address space
+/// reservations such as malloc arenas.
+pub fn limit_memory() {
+    let gb: u64 = std::env::var("FQSIM_MEM_GB").ok().and_then(|s| s.parse().ok()).unwrap_or(4);
+    let lim = libc::rlimit { rlim_cur: gb << 30, rlim_max: gb << 30 };
+    unsafe {
+        libc::setrlimit(libc::RLIMIT_DATA, &lim);
+    }
+}
